@@ -4,6 +4,7 @@ from __future__ import annotations
 import atexit
 import itertools
 import sys
+import time
 
 from hypothesis import strategies as st
 
@@ -21,7 +22,10 @@ RULE = (
     "its own transcript oracle, and the normalised transcripts (item fingerprints, outcome kinds, last line of "
     "remote error texts, endmarkers, close observations - per actor log, no cross-actor timing, channel ids stripped) "
     "are identical to the reference transport. The control path (terminate reaching proxied busy workers) is part of "
-    "C05. Non-trivial = a payload over 64 KB or a sub-channel / callback / failing conversation."
+    "C05. Non-trivial = a payload over 64 KB or a sub-channel / callback / failing conversation. Part 'exitdrain': a "
+    "body that keeps sending n items (1 B - 70 KB, generated pacing) while the initiator calls gw.exit(); the items and "
+    "the end observed afterwards through receive() or a callback must be identical on popen, via and socket gateways "
+    "(fresh gateways per case); non-trivial = at least 2 items under way."
 )
 ASSUMPTIONS = [
     "only schedule-independent programs are compared (one sender and one consumer per direction); racy outcomes such "
@@ -192,6 +196,86 @@ class Equivalence(Part):
                     sample={"model": m, "convs": [k for k, _ in case["convs"]], "transports": transports})
 
 
+class ExitDrain(Part):
+    """exit() while answers are still under way: gw.exit() sends the terminate message and half-closes the connection;
+    what the running body still sends during the worker's grace period must arrive the same way on every transport"""
+
+    name = "exitdrain"
+    budget = {"quick": 24, "thorough": 800}
+    max_shards = 8
+    min_per_shard = 3
+
+    def setup(self, ctx):
+        self.execnet = tree.use()
+
+    def strategy(self, ctx):
+        return st.fixed_dictionaries(dict(
+            n=st.integers(1, 12), delay=st.sampled_from([0.0, 0.005, 0.03]), size=st.sampled_from([1, 100, 70000]),
+            how=st.just("exit"), kind=st.sampled_from(["receive", "callback"])))
+
+    def run(self, case, ctx):
+        src = ("import time\nchannel.send('started')\nfor i in range(%d):\n    time.sleep(%r)\n    channel.send([i, 'x' * %d])\n"
+               "channel.send('done')\n" % (case["n"], case["delay"], case["size"]))
+        want = ["started"] + [[i, case["size"]] for i in range(case["n"])] + ["done"]
+        group = self.execnet.Group()
+        results = {}
+        try:
+            with Watchdog(120) as wd:
+                group.makegateway("popen//id=base")
+                gws = {"popen": group.makegateway("popen//id=d-popen"), "via": group.makegateway("popen//via=base//id=d-via"),
+                       "socket": group.makegateway("socket//installvia=base//id=d-socket")}
+                for t, gw in gws.items():
+                    ch = gw.remote_exec(src)
+                    got = []
+                    if ch.receive(30) != "started":
+                        raise Violation("exitdrain.no-start", f"{t}: first item missing", site=t)
+                    got.append("started")
+                    if case["kind"] == "callback":
+                        END = object()
+                        box = []
+                        ch.setcallback(box.append, endmarker=END)
+                    gw.exit()
+                    if case["kind"] == "callback":
+                        t_end = time.time() + 60
+                        while (not box or box[-1] is not END) and time.time() < t_end:
+                            time.sleep(0.01)
+                        tail = "eof" if box and box[-1] is END else "no-endmarker"
+                        items = [x for x in box if x is not END]
+                    else:
+                        items, tail = [], None
+                        while tail is None:
+                            try:
+                                items.append(ch.receive(60))
+                            except EOFError:
+                                tail = "eof"
+                            except self.execnet.TimeoutError:
+                                tail = "timeout"
+                            except ch.RemoteError as e:
+                                tail = "remote-error:" + str(e).strip().splitlines()[-1][:80]
+                    got += [[x[0], len(x[1])] if isinstance(x, list) else x for x in items]
+                    results[t] = (got, tail)
+            if wd.fired:
+                raise Violation("exitdrain.hang", f"did not finish within 120 s: {sorted(results)} done")
+            ref = results["popen"]
+            for t in ("via", "socket"):
+                if results[t] != ref:
+                    raise Violation("exitdrain.transcripts-differ", f"after {case['how']}() with answers under way ({case}): popen "
+                                    f"delivered {len(ref[0])} of {len(want)} items then {ref[1]}, {t} delivered "
+                                    f"{len(results[t][0])} then {results[t][1]}", site=t)
+            return dict(labels=[f"delay:{case['delay']}", f"size:{case['size']}", case["kind"],
+                                "complete" if ref[0] == want else "incomplete"],
+                        nontrivial=case["n"] >= 2, sample=dict(case, delivered=len(ref[0]), of=len(want), tail=ref[1]))
+        finally:
+            try:
+                with Watchdog(40):
+                    group.terminate(timeout=2.0)
+            except BaseException:  # noqa: BLE001
+                pass
+            finally:
+                atexit.unregister(group._cleanup_atexit)
+                kill_leftovers()
+
+
 def _big(p):
     for d in ("a2b", "b2a"):
         for sender in p[d]:
@@ -201,4 +285,4 @@ def _big(p):
     return False
 
 
-PARTS = [Equivalence()]
+PARTS = [Equivalence(), ExitDrain()]
